@@ -445,6 +445,21 @@ def step (line : String) : String :=
   | "subs" :: rest => (runSubs rest).getD "bad-op"
   | "parse" :: rest => (runParse rest).getD "bad-op"
   | "pparse" :: rest => (runPParse rest).getD "bad-op"
+  | "jinja" :: rest =>
+    -- `jinja vars k=v ... | flags k=T ... | pieces`: pieces `T:w`, `V:name`, `I:flag:0|1:th,th:el,el`
+    match splitSections rest "|" with
+    | ["vars" :: vws, "flags" :: fws, pws] =>
+      match vws.mapM parseKV, fws.mapM parseKV with
+      | some vs, some fs =>
+        let c : JCtx := { vars := fun k => (vs.find? (·.1 = k)).map (·.2), flags := fun k => (fs.find? (·.1 = k)).map (fun kv => kv.2 = "T") }
+        let ps := pws.filterMap (fun w => match w.splitOn ":" with
+          | ["T", x] => some (JPiece.text x)
+          | ["V", n] => some (JPiece.var n)
+          | ["I", f, ng, th, el] => some (JPiece.ite f (ng = "1") ((th.splitOn ",").filter (· ≠ "")) ((el.splitOn ",").filter (· ≠ "")))
+          | _ => none)
+        " ".intercalate ("ok" :: renderJinja c ps)
+      | _, _ => "bad-op"
+    | _ => "bad-op"
   | "strfy" :: rest =>
     -- `strfy <rat>@<decimals> ...` -> the texts joined by commas (as `_stringify` prints an iterable) and the values re-read
     match rest.mapM (fun w => match w.splitOn "@" with
